@@ -1,5 +1,6 @@
 """C13 - with tablebase knowledge the engine reports exact results and keeps them (Tr_TB.tla TTbSearch).
-Roots: random placements of pawnless <=4-man classes x hmc 0..99; `go infinite` until the on-demand table is built and a
+Roots: random placements of pawnless <=4-man classes x hmc 0..99 (40% of the decisive roots searched two or three times in one engine
+process at increasing clocks around their 50-move boundary, hash kept); `go infinite` until the on-demand table is built and a
 depth>=3 line is out, then `stop`.  Oracle rows (value + successor values) come from the generator certified by C12 and are
 re-validated (Bellman) inside the same TLC run."""
 import json
@@ -41,49 +42,56 @@ def row_fen(row, hmc):
     return f"{s} {'w' if row['wtm'] else 'b'} - - {hmc} {60 + hmc // 2}"
 
 
-def search(bdir, row, hmc, net, threads, hashmb):
+def search(bdir, row, hmcs, net, threads, hashmb):
+    """One engine process; the root position is searched once per half-move clock value in hmcs, in that order, without clearing the
+    hash table in between (what a GUI does along a game).  Returns a list of (event | None, status, fen)."""
     eng = uci.Engine(os.path.join(bdir, "texel-" + net))
-    fen = row_fen(row, hmc)
+    out = []
     try:
         eng.send(f"setoption name Hash value {hashmb}")
         if threads > 1:
             eng.send(f"setoption name Threads value {threads}")
         _, ok = eng.isready(60)
         if not ok:
-            return None, "no-readyok", fen
-        eng.send(f"position fen {fen}")
-        eng.send("go infinite")
-        last = None
-        t_end = time.time() + 60
-        deep = False
-        lines_all = []
-        while time.time() < t_end and not deep:
-            lines, _ = eng.read_until(lambda l: l.startswith("info depth") and " pv " in l, 2.0)
+            return [(None, "no-readyok", row_fen(row, hmcs[0]))]
+        for hmc in hmcs:
+            fen = row_fen(row, hmc)
+            eng.send(f"position fen {fen}")
+            eng.send("go infinite")
+            last = None
+            t_end = time.time() + 60
+            deep = False
+            lines_all = []
+            while time.time() < t_end and not deep:
+                lines, _ = eng.read_until(lambda l: l.startswith("info depth") and " pv " in l, 2.0)
+                lines_all += lines
+                for l in lines:
+                    d = uci.parse_info(l, row["wtm"])
+                    if d and d["depth"] >= 4 and d["bound"] == "":
+                        deep = True
+                if not lines:
+                    # search may have ended by itself (mate found): nothing more will come
+                    if any(" pv " in x for x in lines_all):
+                        break
+            eng.send("stop")
+            lines, ok = eng.read_until(lambda l: l.startswith("bestmove"), 30)
             lines_all += lines
-            for l in lines:
+            if not ok:
+                out.append((None, "no-bestmove", fen))
+                return out
+            best = lines[-1].split()[1]
+            for l in lines_all:
                 d = uci.parse_info(l, row["wtm"])
-                if d and d["depth"] >= 4 and d["bound"] == "":
-                    deep = True
-            if not lines:
-                # search may have ended by itself (mate found): nothing more will come
-                if any(" pv " in x for x in lines_all):
-                    break
-        eng.send("stop")
-        lines, ok = eng.read_until(lambda l: l.startswith("bestmove"), 30)
-        lines_all += lines
-        if not ok:
-            return None, "no-bestmove", fen
-        best = lines[-1].split()[1]
-        for l in lines_all:
-            d = uci.parse_info(l, row["wtm"])
-            if d and d["bound"] == "":
-                last = d
+                if d and d["bound"] == "":
+                    last = d
+            if last is None:
+                out.append((None, "no-exact-line", fen))
+                continue
+            out.append(({"e": "TbSearch", "row": row, "hmc": hmc, "kind": last["kind"], "val": last["val"], "bound": last["bound"],
+                         "best": uci.uci_to_mv(best, row["wtm"]), "line": last["line"] if "line" in last else " ".join(map(str, last["pv"][:3])),
+                         "fen": fen, "net": net, "threads": threads, "series": len(hmcs), "nth": len(out) + 1}, "ok", fen))
         eng.quit()
-        if last is None:
-            return None, "no-exact-line", fen
-        return {"e": "TbSearch", "row": row, "hmc": hmc, "kind": last["kind"], "val": last["val"], "bound": last["bound"],
-                "best": uci.uci_to_mv(best, row["wtm"]), "line": last["line"] if "line" in last else " ".join(map(str, last["pv"][:3])),
-                "fen": fen, "net": net, "threads": threads}, "ok", fen
+        return out
     finally:
         eng.kill()
 
@@ -117,31 +125,47 @@ def run(tier, seed):
                 n = (32000 - abs(v)) // 2
                 edge = (101 - 2 * n) if v > 0 else (100 - 2 * n)
                 hmc = min(99, max(0, edge + rnd.choice([0, 0, -1, 1])))
-            jobs.append((c, meta, r, hmc, rnd.choice(sessions.NETS), rnd.choice([1, 1, 2, 4]), rnd.choice([8, 16, 64])))
+            hmcs = [hmc]
+            if v not in (0, 99999) and rnd.random() < 0.4:
+                # the same root again later in the game: first while the mate still fits, then when it does not fit any more
+                # (same engine process, hash table kept: results cached at the earlier clock must not be replayed)
+                n = (32000 - abs(v)) // 2
+                edge = (101 - 2 * n) if v > 0 else (100 - 2 * n)
+                h1 = min(99, max(0, edge - rnd.randint(0, 7)))
+                h2 = min(99, max(0, edge + 1 + rnd.randint(0, 3)))
+                hmcs = [h1, h2] if h1 < h2 else [hmc]
+                if len(hmcs) == 2 and rnd.random() < 0.3:
+                    hmcs.append(min(99, h2 + rnd.randint(1, 9)))
+            jobs.append((c, meta, r, hmcs, rnd.choice(sessions.NETS), rnd.choice([1, 1, 2, 4]), rnd.choice([8, 16, 64])))
     results = vlib.pmap(lambda j: search(bdir, j[2], j[3], j[4], j[5], j[6]), jobs, workers=10)
     files = {}
     n_ok = 0
+    nsearch = 0
     cats = {"won": 0, "lost": 0, "draw": 0, "beyond50": 0}
-    for (c, meta, r, hmc, net, thr, hm), (ev, status, fen) in zip(jobs, results):
-        if status != "ok":
-            rep.violation(f"session:{status}:{fen}", f"engine session ended with {status} on {fen} (net {net}, threads {thr}, hash {hm})")
-            continue
-        f = files.setdefault(c, [json.dumps(meta)])
-        f.append(json.dumps(ev))
-        n_ok += 1
-        v = r["v"]
-        cats["won" if v > 0 else "lost" if v < 0 else "draw"] += 1
-        if n_ok <= 4:
-            rep.sample({"fen": fen, "reported": f"{ev['kind']} {ev['val']}", "oracle_value": v, "net": net, "threads": thr})
+    allfens = set()
+    for (c, meta, r, hmcs, net, thr, hm), res in zip(jobs, results):
+        for ev, status, fen in res:
+            nsearch += 1
+            allfens.add(fen)
+            if status != "ok":
+                rep.violation(f"session:{status}:{fen}", f"engine session ended with {status} on {fen} (net {net}, threads {thr}, hash {hm})")
+                continue
+            f = files.setdefault(c, [json.dumps(meta)])
+            f.append(json.dumps(ev))
+            n_ok += 1
+            v = r["v"]
+            cats["won" if v > 0 else "lost" if v < 0 else "draw"] += 1
+            if n_ok <= 4:
+                rep.sample({"fen": fen, "reported": f"{ev['kind']} {ev['val']}", "oracle_value": v, "net": net, "threads": thr})
     paths = []
     for c, lines in files.items():
         p = os.path.join(wd, f"tbs_{c}.ndjson")
         open(p, "w").write("\n".join(lines) + "\n")
         paths.append(p)
     vlib.linear_check(rep, SPEC, CFG, DIAG, paths, wd)
-    rep.cov.update({"roots": len(jobs), "classes": classes, "root_values": cats})
-    rep.cov["evaluations"] = len(jobs)
-    rep.cov["distinct_nontrivial"] = len({f for _, _, f in results})
+    rep.cov.update({"roots": len(jobs), "searches": nsearch, "series_of_searches_in_one_process": sum(1 for j in jobs if len(j[3]) > 1), "classes": classes, "root_values": cats})
+    rep.cov["evaluations"] = nsearch
+    rep.cov["distinct_nontrivial"] = len(allfens)
     rep.cov["rule"] = "random legal placements of the listed classes x hmc 0..99 x nets x Threads 1..4 x Hash 8..64; distinct FENs counted; all non-trivial (table built + searched)"
     rep.assumptions += ["oracle rows come from TBGenerator<VectorStorage>, whose exactness is C12's claim; each used row is re-checked for Bellman consistency",
                         "beyond the 50-move limit only 'an announced mate must fit and not be shorter than DTM' is demanded (captures may legitimately reset the counter)"]
